@@ -284,14 +284,14 @@ class BaseLoadedMessage(LoadedMessageInterface):
             maintype, subtype, params, disposition, language, location,
             content_id, content_desc, content_encoding, None, size)
 
-    def contains(self, value: bytes) -> bool:
+    def contains(self, value: bytes, headers: bool = True) -> bool:
         try:
             content = self.content
         except _NoContent:
             return False
         pattern = re.compile(re.escape(value), re.I)
         for part in content.walk():
-            if pattern.search(bytes(part.header)) is not None:
+            if headers and pattern.search(bytes(part.header)) is not None:
                 return True
             elif part.body.content_type.maintype == 'text':
                 if pattern.search(bytes(part.body)) is not None:
